@@ -9,8 +9,14 @@ DRIVER = 'drv_c18'
 HARNESS = 'c18.cpp'
 SOURCES = ['src/diagnostics/CheckupReliability.cpp', 'src/diagnostics/Diagnostic.cpp',
            'src/diagnostics/DiagnosticReport.cpp', 'src/diagnostics/DiagnosticStatus.cpp']
-PROOF_MODULES = ['RomeaProofs.Properties.C18']
-TRUSTED = ['C++ harness harness/c18.cpp maps message strings to classes and compares the info string with ostringstream<<value']
+PROOF_MODULES = ['RomeaProofs.Properties.C18', 'RomeaProofs.Bridge.C18', 'RomeaProofs.Bridge.C18Cor']
+TRUSTED = ['C++ harness harness/c18.cpp maps message strings to classes and compares the info string with ostringstream<<value',
+           'tools/cxx2lean.py (Python over clang-14\'s JSON AST) translates CheckupEqualTo/GreaterThan/LowerThan<double>::evaluate, '
+           'Checkup<double>::timeout/setDiagnostic_/setValue_/getStatus_, CheckupReliability::evaluate and worse() from the working tree into '
+           'RomeaModel/Generated/SrcC18.lean on every run; RomeaProofs/Bridge/C18*.lean prove them equal to the model for every scalar type. '
+           'Trusted inside the translator: report_.diagnostics.front() and report_.info.begin() are fixed locations (the check-ups hold exactly '
+           'one diagnostic and one info entry), std::string is Lean String, toStringInfoValue is an uninterpreted function, the lock_guard has '
+           'no sequential meaning, the enum DiagnosticStatus is its underlying integer']
 ASSUMPTIONS = ['theorems are over the reals on the exact values of the doubles; the rounding of t-eps / t+eps (sub-ulp window) is '
                'covered only by the correspondence check, and the probe accepts either classification inside that window']
 EXPLANATION = 'proof of the threshold/aggregation laws on the Lean model + differential correspondence + boundary probe'
@@ -248,3 +254,29 @@ def oracle(case, out, stats):
             if o.split() != exp.split():
                 bad('append', 'expected ' + exp)
     return fails
+
+
+# ------------------------------------------------------------------ stage G: the anchored functions themselves, translated (DESIGN.md 2.5b)
+BRIDGE_SPEC = {
+    'id': 'C18',
+    'headers': ['romea_core_common/diagnostic/CheckupEqualTo.hpp', 'romea_core_common/diagnostic/CheckupGreaterThan.hpp',
+                'romea_core_common/diagnostic/CheckupLowerThan.hpp'],
+    'sources': ['src/diagnostics/CheckupReliability.cpp', 'src/diagnostics/DiagnosticStatus.cpp'],
+    'extra': ['namespace romea { namespace core {', 'template class Checkup<double>;', 'template class CheckupEqualTo<double>;', 'template class CheckupGreaterThan<double>;',
+              'template class CheckupLowerThan<double>;', '}}'],
+    # `toStringInfoValue(v)` (ostringstream << v) is kept as an uninterpreted function: a parameter of the translated functions
+    'uninterpreted': {'toStringInfoValue': {}},
+    'functions': [
+        {'cxx': 'worse'},
+        {'cxx': 'CheckupEqualTo::evaluate'},
+        {'cxx': 'CheckupGreaterThan::evaluate'},
+        {'cxx': 'CheckupLowerThan::evaluate'},
+        {'cxx': 'CheckupReliability::evaluate'},
+        {'cxx': 'Checkup::timeout'},
+    ],
+}
+
+
+def regen(ctx):
+    import bridge
+    return bridge.regen_bridge(ctx, BRIDGE_SPEC)
